@@ -1,8 +1,23 @@
-(** C12 -- placeholder while the proofs are being developed *)
+(** C12 -- Unit strings are parsed with conventional precedence or rejected.
+    Only theorem statements, each closed by [exact], each followed by Print Assumptions.
+    [parse] is the executable model of parse_unit_string (Model/UnitSyntax.v); its literals
+    (patterns, sentinel, precedence table, comparisons) are GENERATED from qexpy/utils/units.py on
+    every run (Gen/UnitSyntaxGen.v).  [render], [denote], [wf] are the grammar of the property
+    (Model/UnitGrammar.v). *)
 From Coq Require Import List ZArith NArith QArith Bool.
-From QV Require Import Gen.UnitSyntaxGen Model.UnitSyntax Proofs.UnitSyntaxBasics.
+From QV Require Import Gen.UnitSyntaxGen Model.UnitSyntax Model.UnitGrammar
+     Proofs.UnitSyntaxBasics Proofs.UnitSentences.
 Import ListNotations.
 
+(** the lexer model was written for exactly the regular expressions that are in the source now *)
 Theorem C12_patterns : patterns_as_modelled = true.
 Proof. exact patterns_ok. Qed.
 Print Assumptions C12_patterns.
+
+(** every well-formed sentence -- terms joined by any of the three multiplication spellings or by
+    "/", juxtaposed factors, integer powers, bracketed groups, and also the library's own "1/"
+    numerator and "^(p/q)" powers -- is accepted, with the exponents of the conventional reading *)
+Theorem C12_sentences : forall e, wf e ->
+  exists u, parse (render e) = Some u /\ forall k, dim u k == denote e k.
+Proof. exact sentences_lemma. Qed.
+Print Assumptions C12_sentences.
